@@ -73,13 +73,13 @@ def run_config(fn, params, cfg_key, seed=0, tier="quick", options=None, max_path
         "vacuity_ok": None,
     }
     # float reference first: real code on the witness inputs
-    FB, ferr = run_float(fn, params, cfg_key, seed, tier=tier)
+    FB, ferr = run_float(fn, params, cfg_key, seed, rtol=opts.get("float_rtol", 1e-8), tier=tier)
     tries = 0
     while ferr is not None and "did not converge" in ferr and tries < 4:
         # the iterative rotation did not converge on this random witness: not a verdict, draw another witness
         tries += 1
         seed = seed + 7919
-        FB, ferr = run_float(fn, params, cfg_key, seed, tier=tier)
+        FB, ferr = run_float(fn, params, cfg_key, seed, rtol=opts.get("float_rtol", 1e-8), tier=tier)
         res["notes"].append("witness redrawn: Varimax iteration did not converge on the first random input")
     float_status = {o.name: o for o in FB.obligations}
     queue = [[]]
@@ -205,7 +205,7 @@ def run_config(fn, params, cfg_key, seed=0, tier="quick", options=None, max_path
     while unw and tried < n_extra and time.time() - t0 < budget * 1.2:
         tried += 1
         seed_s = seed + 104729 * tried
-        FBs, ferrs = run_float(fn, params, cfg_key, seed_s, tier=tier)
+        FBs, ferrs = run_float(fn, params, cfg_key, seed_s, rtol=opts.get("float_rtol", 1e-8), tier=tier)
         if ferrs is not None:
             continue
         fstat = {o.name: o for o in FBs.obligations}
